@@ -105,6 +105,7 @@ func runSmall(c *core.Ctx) []core.Obligation {
 	smallRewriterTableBounded(c, b)
 	smallWave22(c, b)
 	smallDataWordNotDereferenced(c, b)
+	smallEmptyArrayFreshSlice(c, b)
 	smallStringOptionNull(c, b)
 	smallStringOptionMarshaler(c, b)
 	return b.out
@@ -6108,5 +6109,50 @@ func smallDataWordNotDereferenced(c *core.Ctx, b *ob) {
 		b.addP(props, core.Violation, key, bad, "a function that runs per value dereferences an interface data word itself (*(*unsafe.Pointer)(word)) instead of leaving the decision to the inline adapters selected by inlined() when the codec was compiled: a test made on the spot (kind is Ptr or Map) misses single-pointer structs and one-element arrays, whose word is the value too — map[string]struct{P *T} encodes the pointer's address as a number on that path, and a wrapped map makes it panic")
 	default:
 		b.addP(props, core.Discharged, key, "-", fmt.Sprintf("%d read(s) of an interface data word, none dereferenced on the spot", n))
+	}
+}
+
+// S105 — encoding/json decodes the empty array into a fresh empty slice (MakeSlice(t, 0, 0)): the
+// old backing array is dropped, so a later decode into the same variable does not merge into the
+// elements of an earlier one. decodeSlice, which truncates and reuses the array for non-empty
+// input like the standard library, must let go of it when the array is empty.
+func smallEmptyArrayFreshSlice(c *core.Ctx, b *ob) {
+	props := []string{"C02"}
+	key := "decode-slice:empty-array-drops-the-backing-array"
+	fn := c.Lookup("json.(decoder).decodeSlice")
+	if fn == nil {
+		b.addP(props, core.Undecided, key, "-", "json.(decoder).decodeSlice not found")
+		return
+	}
+	found := false
+	for _, blk := range fn.Blocks {
+		closing := false
+		for _, e := range dominatingEdges(blk) {
+			if bo, ok := e.ifi.Cond.(*ssa.BinOp); ok && bo.Op == token.EQL && e.succ == 0 {
+				if k, isK := constInt(bo.Y); isK && k == ']' {
+					closing = true
+				}
+			}
+		}
+		if !closing {
+			continue
+		}
+		for _, in := range blk.Instrs {
+			st, ok := in.(*ssa.Store)
+			if !ok {
+				continue
+			}
+			if fa, isFA := st.Addr.(*ssa.FieldAddr); isFA && fieldAddrID(fa) == "json.slice.cap" {
+				found = true
+			}
+			if strings.HasSuffix(st.Val.Type().String(), "json.slice") {
+				found = true
+			}
+		}
+	}
+	if found {
+		b.addP(props, core.Discharged, key, c.FuncPos(fn), "on the closing bracket of an empty array the slice is replaced, capacity included")
+	} else {
+		b.addP(props, core.Violation, key, c.FuncPos(fn), "decodeSlice keeps the backing array of the destination when the input is the empty array: encoding/json replaces the slice by a fresh empty one, so decoding [] and then [{\"A\":1}] into a []T that held {B: 2} gives {A:1 B:0} there and {A:1 B:2} here — the stale element is merged into")
 	}
 }
